@@ -118,7 +118,14 @@ class Ctx:
         def run_chunk(ls):
             out = []; i = 0
             while i < len(ls):
-                p = subprocess.run([exe], input='\n'.join(ls[i:]) + '\n', capture_output=True, text=True, env=e)
+                try:
+                    p = subprocess.run([exe], input='\n'.join(ls[i:]) + '\n', capture_output=True, text=True, env=e, timeout=900)
+                except subprocess.TimeoutExpired as ex:
+                    # an endless loop / deadlock in the library under test must not hang the check: the line at which the output stops `died`
+                    class P: pass
+                    p = P(); p.returncode = -9
+                    p.stdout = ex.stdout.decode('latin1') if isinstance(ex.stdout, bytes) else (ex.stdout or '')
+                    p.stderr = 'SUMMARY: no answer within 900 s (hang)'
                 got = p.stdout.splitlines()
                 if len(got) > len(ls) - i: got = got[:len(ls) - i]
                 out += got; i += len(got)
